@@ -4,7 +4,7 @@
 # 2. stores it under /verif/seeded/<id>/   3. applies it to /repo, runs the checks, ALWAYS reverts
 set -u
 P="$1"; ID="$2"; shift 2; CHECKS="${*:-$P}"
-WT=/tmp/wt-$P; OUT=/tmp/out-$P; DEST=/verif/seeded/$ID
+WT=${WTPREFIX:-/tmp/wt}-$P; OUT=${OUTPREFIX:-/tmp/out}-$P; DEST=/verif/seeded/$ID
 [ -f $OUT/patch.diff ] || { echo "no patch"; exit 3; }
 cd $WT || exit 3
 git checkout -q -- . ; git clean -fdq fakesnow 2>/dev/null; git apply $OUT/patch.diff || { echo "patch does not apply to clean worktree"; exit 3; }
